@@ -280,7 +280,7 @@ TABLE['C06'] = {
 
 
 TABLE['C10'] = {
-    'modules': ['contracts.faults', 'contracts.regencheck'],
+    'modules': ['contracts.faults', 'contracts.regencheck', 'contracts.regen'],
     'level': 'other',
     'explanation': '(proof, find_check_cache under contract with an abstract file system: for any number of regeneration inputs and outputs and arbitrary cached find results, a lazy regeneration is skipped only if the find cache is not newer than the build file, no input is newer than any output and every cached result equals the fresh search; the depfile is refreshed before skipping.) Beyond that kernel the property quantifies over crash points between file-system mutations of a whole run: a function contract relates the pre-state of one call to its post-state and has no notion of "killed here", so nothing else is proved. The rest of the check is bounded fault injection on the real driver, without any change to the repository: the generated regeneration rule is run by GNU make with a launcher that patches open-for-write / close / os.utime / remove / makedirs / rename / replace for paths in the build directory and, at the k-th such event, kills the process (buffered data lost) or raises OSError -- for every k of an uninterrupted run (25 events), two kinds of edit (build.bfg changed; a new file matching find_files) and both fault modes; the next, undisturbed make must then either leave Makefile, .bfg_find_deps and .bfg_find_cache equal to a fresh configure of the edited project or exit non-zero. A build script that raises must leave the previous Makefile byte-identical and fail visibly.',
     'assumptions': ['a kill is modelled by os._exit at a patched call: files are absent, empty or complete, never partially flushed'],
